@@ -32,6 +32,11 @@ func Harness_C18_temporallyCompatible() {
 	if vChoice("has-interval", 2) == 1 {
 		lo, ls, ln := c18Instant("start")
 		hi, hs, hn := c18Instant("end")
+		// the same instants spelled with a zone offset (RFC 3339 bounds of a log list need not be in UTC)
+		if vChoice("bounds-zone", 2) == 1 {
+			z := time.FixedZone("+01:00", 3600)
+			lo, hi = lo.In(z), hi.In(z)
+		}
 		l.TemporalInterval = &TemporalInterval{StartInclusive: lo, EndExclusive: hi}
 		inside = !c18Before(ts, tn, ls, ln) && c18Before(ts, tn, hs, hn)
 	} else {
